@@ -385,4 +385,17 @@ example :
     accessesOf 0 (flatNode lay pay) = expectedTrace lay.sk 0 := by
   decide +kernel
 
+/-! non-vacuity of `C05_every_skeleton_labelled` and of the round trips: the skeleton of the first example of this
+file is well formed with word-sized rings; the tree read from any 10 words is canonical -/
+example :
+    let cs := [Sk.fn [.feed 2, .mem 1], .delay 3, .fn [.feed 1, .fn [.mem 1]]]
+    WF (.fn cs) = true ∧ SkFits (.fn cs) ∧ (ofSk (.fn cs)).size = 10 ∧
+    Canon (ofSk (.fn cs)) (deserialize (ofSk (.fn cs)) [1, 2, 3, 4, 5, 6, 7, 8, 9, 10]) := by
+  intro cs
+  have hw : WF (.fn cs) = true := by decide +kernel
+  have hf : SkFits (.fn cs) := by simp [cs, SkFits, SkFitsL]
+  have hs : (ofSk (.fn cs)).size = 10 := by decide +kernel
+  have hsk := C05_every_skeleton_labelled cs hw hf
+  exact ⟨hw, hf, hs, (C05_serialize_deserialize _ _ hsk.2 (by rw [LNode.sk_size, hs]; rfl)).2.1⟩
+
 end Mimium.FlatTree
